@@ -61,6 +61,9 @@ long ticksAfter(const sess::History& h, long long tNs, long upToTicks) {
 }
 
 void checkTime(const sess::History& h, const uci::Model& m, const Scenario& sc, vf::Result& res) {
+    if (getenv("VERIF_TRACE_LIMITS"))
+        for (const sess::LimitEv& e : h.limits)
+            fprintf(stderr, "limit seq %llu t %lld us min %lld max %lld early %d start %lld tid %d mainTicks %ld\n", (unsigned long long)e.seq, e.t / 1000, e.minT, e.maxT, e.early, e.start, e.tid, e.mainTicks);
     const long long clockCost = sc.knobInt("clock_cost_ns", 1000);
     const long long slackNs = 400 * clockCost + 2000000 + sc.knobInt("late_max_ns", 0); // clock reads between wake-up and the bestmove line, ms rounding, late timers
     const long long injected = res.counters["fault_clock_jump_ns"];
@@ -241,8 +244,12 @@ void genC06(uint64_t seed, int tier, Scenario& sc) {
             long long clk = r.logRange(1, kind == 2 ? maxTimeMs : 600000); // after ponderhit the clock is really used
             go = kind == 0 ? "go infinite" : "go ponder wtime " + std::to_string(clk) + " btime " + std::to_string(clk);
             pushSend(sc, go);
+            // the release lands inside the table generation or in the (unlimited) search that follows it: the wait is
+            // bounded by the generation time of this run's cost knobs plus the node budget of the class
+            long long genUs = (2 * sc.knobInt("work_cost01_ns", 60) + 70 * sc.knobInt("work_cost2_ns", 6)) * 5243LL; // 5.2 M positions, in us
+            if (gp.men <= 3) genUs /= 64;
             if (r.chance(0.5)) sc.ops.push_back("wait_steps " + std::to_string(r.logRange(1, 400)));
-            else sc.ops.push_back("wait_us " + std::to_string(r.logRange(1, 4000000)));
+            else sc.ops.push_back("wait_us " + std::to_string(r.logRange(1, std::max(2LL, genUs + maxNodes * std::max(1LL, cost / 1000)))));
             pushSend(sc, kind == 2 ? "ponderhit" : "stop");
             sc.ops.push_back("wait_bestmove");
             continue;
